@@ -2,6 +2,7 @@
 import Prs.Driver.Json
 import Prs.Model.Stats2
 import Prs.Model.Graph
+import Prs.Model.Tables
 open Lean
 namespace Prs.Drv
 
@@ -180,6 +181,12 @@ def opStats (op : String) (j : Json) : Option (R Json) :=
       let r := recount (← natList j "sample")
       pure (Json.arr #[jList jNat r.1, jList jNat r.2])
   | "unpack_counts" => some do pure (jList jNat (unpackCounts (← natList j "counts")))
+  | "default_metric" => some do
+      let m := defaultMetric (← bool j "isTable") (← bool j "hasA") (← bool j "hasB")
+      pure (Json.str (match m with
+        | .levenshtein => "Levenshtein" | .alphaCdr3 => "AlphaCdr3Levenshtein"
+        | .betaCdr3 => "BetaCdr3Levenshtein" | .cdr3 => "Cdr3Levenshtein"))
+  | "background_bins" => some do pure (jList jNat (backgroundBins (← natList j "index")))
   | _ => none
 
 end Prs.Drv
